@@ -23,11 +23,15 @@ META = {
     "ill-formed requests — field twice, splitter field without value, value for a field not in the splitter, overwrite, "
     "container_ndim for an unsplit field (ValueError), non-sequence value / unknown input (TypeError) — C05_reject_iff; "
     "Task.combine / Submitter / State.combiner_validation reject exactly a combiner that is overwritten, names no task input, has "
-    "no splitter, or is not split (C05_combine_reject_iff).  'Before any job is executed' is observed on every rejected request "
-    "(zero task job directories, zero task-body executions), not proved.",
-    "note": "Trusted: Lean kernel; hand-written model of _ordering (after the repair of D33) and of the validation code; the position of "
-    "the checks relative to job creation is observed, not modelled; the implicit Split wrapper workflow directory is allowed to exist "
-    "(DESIGN §6 C05).",
+    "no splitter, or is not split (C05_combine_reject_iff).  'Before any job is executed': on the call-site skeleton regenerated "
+    "from the current source on every run (Gen/StateCallSites.lean), Task.split / Task.combine construct no Job and run nothing, "
+    "Submitter.__call__ builds the State and raises 'combining without splitting' before its Job(...) and submit, "
+    "NodeExecution.start calls prepare_states before _split_task and every Job(...), prepare_states runs its validations in "
+    "order, and none of the State functions constructs a Job (C05_before_jobs, by decide; C05_before_jobs_meaning); in addition "
+    "observed on every rejected request (zero task job directories, zero task-body executions).",
+    "note": "Trusted: Lean kernel; hand-written model of _ordering (after the repair of D33) and of the validation code; the call-event "
+    "extraction (harness/engines/rules.py:_function_events: positional order of calls, `guarded` flag) and the choice of the nine "
+    "functions that make up the path; the implicit Split wrapper workflow job/directory is allowed to exist (DESIGN §6 C05).",
     "rule": "case = pair of equivalent splitter trees (random one-element wrapping / unwrapping / re-bracketing of outer or inner "
     "chains) with list lengths, or a valid request perturbed in one of 8 ways; distinct by canonical JSON; non-trivial = the two "
     "spellings differ and have >= 2 fields, or the request is malformed",
@@ -48,8 +52,11 @@ OBLIGATIONS = [
         "C05_rebracket_le4",
         "C05_reject_iff",
         "C05_combine_reject_iff",
+        "C05_before_jobs",
+        "C05_before_jobs_meaning",
     )
 ]
+EXTRACTORS = [sa.extract_state_call_sites]
 LEAN_TARGETS = ["PydraModel.Props.C05"]
 MODEL_TARGETS = ["PydraModel.StateAlg.Model", "PydraModel.StateAlg.Spec", "PydraModel.DriverUtil"]
 
